@@ -88,6 +88,8 @@ def init(repo: str, so_path: str | None, config: dict) -> None:
     if "ws" in amb:        # process-wide settings no property's results may depend on (unless it says so)
         pendulum.week_starts_at(pendulum.WeekDay(amb["ws"]))
         pendulum.week_ends_at(pendulum.WeekDay((amb["ws"] + 6) % 7))
+        import calendar as _calendar
+        _calendar.setfirstweekday(amb["ws"])          # the stdlib's own process-wide first weekday
     if "locale" in amb:
         pendulum.set_locale(amb["locale"])
     signal.signal(signal.SIGALRM, _alarm)
